@@ -71,10 +71,12 @@ func vpC10Target(ti int) vpRecipTarget {
 		x := &Object{ID: "https://h.ex/self", Type: NoteType}
 		return vpRecipTarget{&x.To, &x.CC, &x.Bto, &x.BCC, &x.Audience, nil, x.Recipients}
 	case 1:
-		x := &Activity{ID: "https://h.ex/self", Type: CreateType}
+		// the sender of a transitive activity, and what it is attributed to or about, are not addressees:
+		// decoys there must not show up
+		x := &Activity{ID: "https://h.ex/self", Type: CreateType, Actor: IRI("https://h.ex/decoy0"), AttributedTo: IRI("https://h.ex/decoy"), Object: IRI("https://h.ex/decoy2")}
 		return vpRecipTarget{&x.To, &x.CC, &x.Bto, &x.BCC, &x.Audience, nil, x.Recipients}
 	case 2:
-		x := &IntransitiveActivity{ID: "https://h.ex/self", Type: ArriveType}
+		x := &IntransitiveActivity{ID: "https://h.ex/self", Type: ArriveType, AttributedTo: IRI("https://h.ex/decoy"), Target: IRI("https://h.ex/decoy2")}
 		var act Item
 		r := vpRecipTarget{&x.To, &x.CC, &x.Bto, &x.BCC, &x.Audience, &act, nil}
 		r.recipients = func() ItemCollection {
@@ -85,7 +87,7 @@ func vpC10Target(ti int) vpRecipTarget {
 		}
 		return r
 	case 3:
-		x := &Question{ID: "https://h.ex/self", Type: QuestionType}
+		x := &Question{ID: "https://h.ex/self", Type: QuestionType, AttributedTo: IRI("https://h.ex/decoy"), Target: IRI("https://h.ex/decoy2")}
 		var act Item
 		r := vpRecipTarget{&x.To, &x.CC, &x.Bto, &x.BCC, &x.Audience, &act, nil}
 		r.recipients = func() ItemCollection {
@@ -218,6 +220,14 @@ func vpH_C10_variants() {
 	vpC10Run(t, addrs, []int{0, 1, 0})
 }
 
+// the types that have an actor: it is an addressee (scanned after bcc, before audience), and nothing
+// else the value points at (attributedTo, object, target) is
+func vpH_C10_actor_types() {
+	t := vpC10Target(2 + vpChoice(2)) // the intransitive ones: there the actor is addressed
+	addrs := []vpAddr{vpAddressee(0), vpAddressee(1), vpAddressee(2)}
+	vpC10Run(t, addrs, []int{5, vpChoice(6), []int{0, 4}[vpChoice(2)]})
+}
+
 func vpT_C10_three() {
 	t := vpC10Target(vpChoice(4))
 	addrs := []vpAddr{vpAddressee(0), vpAddressee(vpChoice(5)), vpAddressee(vpChoice(3))}
@@ -243,11 +253,9 @@ func vpH_C10_public() {
 	vpC10Run(t, addrs, []int{0, 0, 1, vpChoice(4)})
 }
 
-func vpT_C10_four() {
-	t := vpC10Target(vpChoice(4))
-	addrs := []vpAddr{vpAddressee(vpChoice(5)), vpAddressee(vpChoice(5)), vpAddressee(vpChoice(3)), vpAddressee(0)}
-	vpC10Run(t, addrs, []int{vpChoice(2), vpChoice(6), vpChoice(6), vpChoice(6)})
-}
+// (four addressees over the presentation x placement matrix did not finish in 15 minutes even with tied
+// placements: 227 000 paths explored without a violation; not registered. Three addressees in every
+// presentation and placement, and five in one list, are.)
 
 func vpT_C10_five_same_list() {
 	t := vpC10Target(0)
